@@ -48,13 +48,28 @@ type intrinsicFn func(e *Exec, fn *ssa.Function, args []Value) Value
 
 var intrinsics map[string]intrinsicFn
 
+// intrinsics without side effects, allowed while both arms of a branch are evaluated speculatively
+var pureIntrinsics = map[string]bool{
+	"rcproxy/verifrt.And": true, "rcproxy/verifrt.Or": true, "rcproxy/verifrt.Not": true, "rcproxy/verifrt.Implies": true,
+	"rcproxy/verifrt.Ite": true, "rcproxy/verifrt.IteByte": true, "rcproxy/verifrt.IteU32": true, "rcproxy/verifrt.IteBool": true,
+	"bytes.IndexByte": true, "internal/bytealg.IndexByte": true, "strings.IndexByte": true, "internal/bytealg.IndexByteString": true,
+	"strings.Index": true, "internal/bytealg.IndexString": true, "bytes.Index": true, "internal/bytealg.Index": true,
+	"strings.Contains": true, "internal/bytealg.CountString": true, "internal/bytealg.Count": true, "bytes.Equal": true, "internal/bytealg.Equal": true,
+}
+
 func (e *Exec) tryIntrinsic(fn *ssa.Function, args []Value) (Value, bool) {
 	name := fn.String()
 	if in, ok := intrinsics[name]; ok {
+		if len(e.spec) > 0 && !pureIntrinsics[name] {
+			panic(specAbort{"intrinsic"})
+		}
 		return in(e, fn, args), true
 	}
 	if o := fn.Origin(); o != nil {
 		if in, ok := intrinsics[o.String()]; ok {
+			if len(e.spec) > 0 {
+				panic(specAbort{"intrinsic"})
+			}
 			return in(e, fn, args), true
 		}
 	}
@@ -540,8 +555,10 @@ func (e *Exec) fmtArg(verb byte, v Value) []*Term {
 		}
 		if verb == 's' || verb == 'v' {
 			// error / Stringer
-			if m := e.prog.LookupMethod(x.T, nil, "Error"); m != nil && types.Implements(x.T, errorType.Underlying().(*types.Interface)) {
-				return e.call(m, []Value{x.V}).(*StrV).B
+			if types.Implements(x.T, errorType.Underlying().(*types.Interface)) {
+				if m := e.prog.LookupMethod(x.T, nil, "Error"); m != nil {
+					return e.call(m, []Value{x.V}).(*StrV).B
+				}
 			}
 		}
 		_, signed := widthOf(x.T)
